@@ -42,6 +42,7 @@ struct NodeRt {
     gate: Arc<tokio::sync::Notify>,
     reached: Arc<std::sync::atomic::AtomicBool>,
     gate_fetch: Arc<std::sync::atomic::AtomicBool>,
+    fail_read: Arc<std::sync::atomic::AtomicBool>,
     split: Option<tokio::task::JoinHandle<(Tracker, Option<Result<verif::ExchangeReport, anyhow::Error>>)>>,   // a repair in progress (repair-begin .. repair-end)
     tracker: Tracker,      // the poller's keyspace tracker of this node (per-peer entries inside)
     poller: Option<verif::Poller>,   // the real replication cycle service of this node, when a case started it
@@ -96,12 +97,13 @@ async fn make_node(id: u8, _n: usize) -> NodeRt {
     let fs = FaultyStore::new(Arc::new(MemStore::default()));
     let directive = fs.next.clone();
     let (gate, reached, gate_fetch) = (fs.gate.clone(), fs.reached.clone(), fs.gate_fetch.clone());
+    let fail_read = fs.fail_read.clone();
     let group = KeyspaceGroup::new(Arc::new(fs), clock.clone()).await;
     let network = RpcNetwork::default();
     let (addr, server) = crate::rpc::listen_free().await;
     server.add_service(ConsistencyService::new(group.clone(), network.clone()));
     server.add_service(ReplicationService::new(group.clone()));
-    NodeRt { id, addr, clock, group, network, directive, gate, reached, gate_fetch, split: None, tracker: Tracker::default(), poller: None, _server: server }
+    NodeRt { id, addr, clock, group, network, directive, gate, reached, gate_fetch, fail_read, split: None, tracker: Tracker::default(), poller: None, _server: server }
 }
 
 fn fmt_pairs(mut v: Vec<(u64, HLCTimestamp)>) -> String {
@@ -584,6 +586,15 @@ impl Domain for ClusterDomain {
             },
             "reach" => {
                 self.down.retain(|x| *x != u(1));
+                "ok".into()
+            },
+            "failfetch" => {
+                // the next document read on node i's storage fails: a repairing peer's `fetch_docs` is answered with an error
+                self.nodes[u(1)].fail_read.store(true, std::sync::atomic::Ordering::SeqCst);
+                "ok".into()
+            },
+            "clearfetch" => {
+                self.nodes[u(1)].fail_read.store(false, std::sync::atomic::Ordering::SeqCst);
                 "ok".into()
             },
             "clearfail" => {
